@@ -192,7 +192,7 @@ _ADD5 = {
  "C20": "; the -style flag's way through config.NewConfig (third virtual package): the template reaches the formatter byte for byte, only a blank one is refused",
 }
 _ADD6 = {
- "C02": "; handlers panicking with a nil value; handlers held open: every request is then either inside a handler or answered 503 - nobody waits inside the MaxConns guard",
+ "C02": "; handlers panicking with a nil value; handlers held open: every request is then either inside a handler or answered 503 - nobody waits inside the MaxConns guard; the RPC crash interceptor and the timeout interceptor each on their own with handlers panicking with a string, an error, a runtime error, a nil value (Internal, at once)",
  "C05": "; inherit: the nested level absent / a value / null / empty x the enclosing level x optional x JSON and YAML",
  "C09": "; arrivals and completions on different goroutines (schedule search): the in-flight count is back at zero and never negative",
  "C14": "; a 61 s step (longer than the statistics interval) with calls still open",
